@@ -92,6 +92,7 @@ def convertMCNPGeometry(mcnp_parser, lattice_params, args):
                 print(' done', flush=True)
 
     dic_volume, mcnp_new_dict, dic_surface_t4, skipped_cells, union_ids = vol_conv
+    renumber = {}
     if not args.skip_deduplication:
         dic_surface_t4, renumber = remove_duplicate_surfaces(dic_surface_t4)
         dic_volume = renumber_surfaces(dic_volume, renumber)
@@ -106,7 +107,7 @@ def convertMCNPGeometry(mcnp_parser, lattice_params, args):
     verif_emit('final', volumes=dic_volume, numbering=dic_surface_t4)
 
     return (dic_surface_mcnp, dic_surface_t4, dic_volume, mcnp_new_dict,
-            skipped_cells)
+            skipped_cells, renumber)
 
 
 def writeT4Geometry(dic_surface_t4, dic_volume, skipped_cells, ofile):
